@@ -27,7 +27,7 @@ func CloneNode(node ast.Node) ast.Node {
 		}
 		values := make([]ast.Expression, len(n.Rhs))
 		for i, v := range n.Rhs {
-			variables[i] = CloneExpression(v)
+			values[i] = CloneExpression(v)
 		}
 		return ast.NewAssignment(ClonePosition(n.Position), variables, n.Type, values)
 
@@ -42,7 +42,10 @@ func CloneNode(node ast.Node) ast.Node {
 		return ast.NewBlock(ClonePosition(n.Position), nodes)
 
 	case *ast.Break:
-		label := CloneExpression(n.Label).(*ast.Identifier)
+		var label *ast.Identifier
+		if n.Label != nil {
+			label = CloneExpression(n.Label).(*ast.Identifier)
+		}
 		return ast.NewBreak(ClonePosition(n.Position), label)
 
 	case *ast.Case:
@@ -78,7 +81,10 @@ func CloneNode(node ast.Node) ast.Node {
 		return ast.NewConst(ClonePosition(n.Position), idents, typ, values, n.Index)
 
 	case *ast.Continue:
-		label := CloneExpression(n.Label).(*ast.Identifier)
+		var label *ast.Identifier
+		if n.Label != nil {
+			label = CloneExpression(n.Label).(*ast.Identifier)
+		}
 		return ast.NewContinue(ClonePosition(n.Position), label)
 
 	case *ast.Defer:
@@ -196,6 +202,16 @@ func CloneNode(node ast.Node) ast.Node {
 	case *ast.Raw:
 		return ast.NewRaw(ClonePosition(n.Position), n.Marker, n.Tag, CloneNode(n.Text).(*ast.Text))
 
+	case *ast.Return:
+		var values []ast.Expression
+		if n.Values != nil {
+			values = make([]ast.Expression, len(n.Values))
+			for i, v := range n.Values {
+				values[i] = CloneExpression(v)
+			}
+		}
+		return ast.NewReturn(ClonePosition(n.Position), values)
+
 	case *ast.Select:
 		var text *ast.Text
 		if n.LeadingText != nil {
@@ -244,27 +260,6 @@ func CloneNode(node ast.Node) ast.Node {
 		}
 		return ast.NewStatements(ClonePosition(n.Position), nodes)
 
-	case *ast.StructType:
-		var fields []*ast.Field
-		if n.Fields != nil {
-			fields = make([]*ast.Field, len(n.Fields))
-			for i, field := range n.Fields {
-				var idents []*ast.Identifier
-				if field.Idents != nil {
-					idents = make([]*ast.Identifier, len(field.Idents))
-					for j, ident := range field.Idents {
-						idents[j] = CloneExpression(ident).(*ast.Identifier)
-					}
-				}
-				var typ ast.Expression
-				if field.Type != nil {
-					typ = CloneExpression(field.Type)
-				}
-				fields[i] = ast.NewField(idents, typ, field.Tag)
-			}
-		}
-		return ast.NewStructType(ClonePosition(n.Position), fields)
-
 	case *ast.Switch:
 		var init ast.Node
 		if n.Init != nil {
@@ -290,6 +285,10 @@ func CloneNode(node ast.Node) ast.Node {
 			copy(text, n.Text)
 		}
 		return ast.NewText(ClonePosition(n.Position), text, n.Cut)
+
+	case *ast.TypeDeclaration:
+		ident := CloneExpression(n.Ident).(*ast.Identifier)
+		return ast.NewTypeDeclaration(ClonePosition(n.Position), ident, CloneExpression(n.Type), n.IsAliasDeclaration)
 
 	case *ast.TypeSwitch:
 		var init ast.Node
@@ -456,6 +455,30 @@ func CloneExpression(expr ast.Expression) ast.Expression {
 		expr2 = ast.NewSlicing(ClonePosition(e.Position), CloneExpression(e.Expr), CloneExpression(e.Low),
 			CloneExpression(e.High), CloneExpression(e.Max), e.IsFull)
 
+	case *ast.StructType:
+		var fields []*ast.Field
+		if e.Fields != nil {
+			fields = make([]*ast.Field, len(e.Fields))
+			for i, field := range e.Fields {
+				var idents []*ast.Identifier
+				if field.Idents != nil {
+					idents = make([]*ast.Identifier, len(field.Idents))
+					for j, ident := range field.Idents {
+						idents[j] = CloneExpression(ident).(*ast.Identifier)
+					}
+				}
+				var typ ast.Expression
+				if field.Type != nil {
+					typ = CloneExpression(field.Type)
+				}
+				fields[i] = ast.NewField(idents, typ, field.Tag)
+			}
+		}
+		expr2 = ast.NewStructType(ClonePosition(e.Position), fields)
+
+	case *ast.Placeholder:
+		expr2 = ast.NewPlaceholder()
+
 	case *ast.TypeAssertion:
 		expr2 = ast.NewTypeAssertion(ClonePosition(e.Position), CloneExpression(e.Expr), CloneExpression(e.Type))
 
@@ -473,5 +496,8 @@ func CloneExpression(expr ast.Expression) ast.Expression {
 
 // ClonePosition returns a copy of position pos.
 func ClonePosition(pos *ast.Position) *ast.Position {
+	if pos == nil {
+		return nil
+	}
 	return &ast.Position{Line: pos.Line, Column: pos.Column, Start: pos.Start, End: pos.End}
 }
